@@ -443,6 +443,63 @@ func runRedisWait(ctx *Ctx) {
 		ctx.R.Nontrivial(fmt.Sprintf("random %d", cse))
 	}
 	rwFreeRunning(ctx)
+	rwTransportFault(ctx)
+}
+
+// rwFaultHook fails the n-th GET it sees with a transport error (nothing reaches the server)
+type rwFaultHook struct {
+	n    int32
+	seen int32
+}
+
+func (h *rwFaultHook) BeforeProcess(ctx context.Context, cmd goredis.Cmder) (context.Context, error) {
+	if cmd.Name() == "get" && atomic.AddInt32(&h.seen, 1) == h.n {
+		return ctx, errors.New("read tcp 127.0.0.1: connection reset by peer (injected)")
+	}
+	return ctx, nil
+}
+func (h *rwFaultHook) AfterProcess(ctx context.Context, cmd goredis.Cmder) error { return nil }
+func (h *rwFaultHook) BeforeProcessPipeline(ctx context.Context, cmds []goredis.Cmder) (context.Context, error) {
+	return ctx, nil
+}
+func (h *rwFaultHook) AfterProcessPipeline(ctx context.Context, cmds []goredis.Cmder) error { return nil }
+
+// rwTransportFault: the k-th poll of a waiter fails with a transport error while its context is live and nobody
+// has touched the key.  The waiter may report the error or go on polling — what it may not do is report a change
+// (nil) or an absence (ErrNotExist) that nobody has seen.
+func rwTransportFault(ctx *Ctx) {
+	for _, k := range []int32{1, 2, 3} {
+		mr, err := miniredis.Run()
+		if err != nil {
+			return
+		}
+		st := kredis.New(&goredis.Options{Addr: mr.Addr()})
+		bg := context.Background()
+		ctx.R.Case(0)
+		ctx.R.Comment(fmt.Sprintf("scenario transport-fault at poll %d", k))
+		rec, err := st.Put(bg, kvs.Record{Key: "f", Value: []byte("x")})
+		if err == nil {
+			kredis.VerifAddHook(st, &rwFaultHook{n: k})
+			cx, cancel := context.WithCancel(bg)
+			done := make(chan string, 1)
+			go func() { done <- rwVerdict(st.WaitForVersionChange(cx, "f", rec.Version)) }()
+			select {
+			case v := <-done:
+				if v == "waitNil" || v == "errNotExist" {
+					ctx.R.Quiet("mon C07-no-invented-change", fmt.Sprintf("poll %d of a waiter failed with a transport error; its context was live, the key existed with exactly the version it was given and nobody touched it — the waiter returned %s", k, v))
+				}
+			case <-time.After(400 * time.Millisecond):
+			}
+			cancel()
+			select {
+			case <-done:
+			case <-time.After(rwMaxGap):
+			}
+			ctx.R.Nontrivial("transport fault")
+		}
+		kredis.VerifClose(st)
+		mr.Close()
+	}
 }
 
 // rwFreeRunning: no gates, real time.  A waiter on the current version must still be blocked after a quiet period
